@@ -320,10 +320,12 @@ def s_encs(draw):
 @st.composite
 def s_case(draw):
     suffix = draw(st.sampled_from([".sm", ".ssc"]))
-    sel = draw(st.integers(0, 11))
-    kind = "raw" if sel == 0 else "dangling" if sel == 1 else "doc"
+    sel = draw(st.integers(0, 13))
+    kind = "raw" if sel == 0 else "dangling" if sel == 1 else "straddle" if sel == 2 else "doc"
     if kind == "raw":
         data = b"".join(draw(st.lists(st.sampled_from(RAW_BYTES), min_size=1, max_size=14))) + draw(st.sampled_from([b"\n", b"\n", b""]))
+        if data.endswith(b"\\"):
+            data += b"\n"  # a text ending in an unpaired backslash trips msdparser's own assertion (known finding of C03)
         strict = False
         enc_used = None
     elif kind == "dangling":
@@ -335,6 +337,17 @@ def s_case(draw):
         tail = draw(st.sampled_from(DANGLING_TAILS))
         data = text.encode(enc_used) + (b"" if text.endswith(("\n", "\r")) or not text else b"\n") + b"#LASTKEY:x" + tail
         kind = "raw"
+    elif kind == "straddle":
+        # a UTF-8 file longer than a typical I/O buffer in which a multi-byte character straddles (or starts just before)
+        # the 4096 / 8192 / 16384 byte boundary: detection must still decode the *whole* file
+        from .. import gen_msd as GM
+
+        enc_used = "utf-8"
+        strict = True
+        first = draw(GM.straddle_segment())[1]
+        text = first + draw(ff.s_document(enc_used, suffix, keyonly=False, stray=False, max_props=2, max_charts=1)).lstrip("\ufeff")
+        data = text.encode("utf-8")
+        kind = "doc"
     else:
         enc_used = draw(st.sampled_from(ff.MAIN_ENCODINGS))
         strict = draw(st.integers(0, 4)) != 0
@@ -356,6 +369,22 @@ def s_case(draw):
         "pre_bak": draw(st.booleans()),
         "bystanders": draw(st.booleans()),
         "script": draw(ff.s_script(suffix, max_ops=5)),
+    }
+
+
+@st.composite
+def s_straddle_case(draw):
+    """dedicated part: UTF-8 bodies with a multi-byte character on a buffer-size boundary, default and custom encodings"""
+    from .. import gen_msd as GM
+
+    suffix = draw(st.sampled_from([".sm", ".ssc"]))
+    first = draw(GM.straddle_segment())[1]
+    text = first + draw(ff.s_document("utf-8", suffix, keyonly=False, stray=False, max_props=2, max_charts=1)).lstrip("\ufeff")
+    return {
+        "kind": "doc", "data": text.encode("utf-8").hex(), "enc_used": "utf-8", "suffix": suffix, "strict": True,
+        "encs": draw(st.sampled_from([None, None, ["utf-8", "cp1252"], ["utf-8", "cp932", "cp949"], ["cp949", "utf-8", "cp1252"]])),
+        "fs": draw(st.sampled_from(["native", "mem"])), "out": draw(st.booleans()), "bak": draw(st.sampled_from(["none", "other"])),
+        "pre_out": False, "pre_bak": False, "bystanders": False, "script": draw(ff.s_script(suffix, max_ops=2)),
     }
 
 
@@ -395,4 +424,5 @@ def parts(tier):
     return [
         {"name": "examples-and-corpus", "kind": "fixed", "cases": _fixed_cases},
         {"name": "random", "kind": "hypothesis", "strategy": s_case, "examples": 2400 if q else 16 * 2500},
+        {"name": "buffer-straddling", "kind": "hypothesis", "strategy": s_straddle_case, "examples": 480 if q else 16 * 400},
     ]
